@@ -288,6 +288,24 @@ def run(spec, res):
             nb = [lb[i:i + 16].strip() for i in range(0, len(lb), 16)]
             if na != nb:
                 problems.append('species order %s -> %s' % (na, nb))
+        if fmt == 'wind':
+            # the time header's stagger flag is the wind file's "grid
+            # header": present or absent (nan), and its value, survive
+            a_, b_ = getattr(f, 'LSTAGGER', None), getattr(g, 'LSTAGGER',
+                                                           None)
+
+            def _ls(x):
+                if x is None:
+                    return None
+                x = float(x)
+                return None if x != x else int(x)
+            if _ls(a_) != _ls(b_):
+                problems.append('header LSTAGGER: %r -> %r' % (a_, b_))
+        if fmt == 'cloud_rain' and hasattr(f, 'FILEDESC') and str(
+                getattr(f, 'FILEDESC')).strip() != str(
+                    getattr(g, 'FILEDESC', '')).strip():
+            problems.append('header FILEDESC: %r -> %r' % (
+                getattr(f, 'FILEDESC'), getattr(g, 'FILEDESC', None)))
         if spec['src'] == 'direct' and not problems:
             # the independent decoder must also recover what was handed in
             try:
